@@ -507,7 +507,21 @@ func mutate(b *base, pos position, s subst, op int) (out []byte, reason string) 
 	if repl == nil {
 		return nil, "no collection to alias"
 	}
-	if op == 1 {
+	if op == 2 {
+		// delete the element: a key together with its value in a mapping, an item of a sequence
+		switch parent.Kind {
+		case yaml.MappingNode:
+			k := last - last%2
+			if k+1 >= len(parent.Content) {
+				return nil, "path"
+			}
+			parent.Content = append(parent.Content[:k:k], parent.Content[k+2:]...)
+		case yaml.SequenceNode:
+			parent.Content = append(parent.Content[:last:last], parent.Content[last+1:]...)
+		default:
+			return nil, "not in a collection"
+		}
+	} else if op == 1 {
 		target := parent.Content[last]
 		if target.Kind != yaml.MappingNode {
 			return nil, "not a mapping"
@@ -546,6 +560,9 @@ func nodeStream(name string, pl *plan, ch int, ts []triple) *Stream {
 		opn := "subst"
 		if t.op == 1 {
 			opn = "insert-merge"
+		}
+		if t.op == 2 {
+			opn = "delete"
 		}
 		c.Desc = fmt.Sprintf("%s %s at %s (%v) := %s", opn, b.name, pos.keyPath, pos.path, s.name)
 		data, why := mutate(b, pos, s, t.op)
@@ -623,6 +640,35 @@ func (pl *plan) build() {
 			ts = append(ts, triple{bi, pi, rng.Intn(nsub), op})
 		}
 		pl.streams = append(pl.streams, nodeStream(names[ch], pl, ch, ts))
+	}
+	// (i-c) deletion of every key / item, in turn, of the synthetic every-key document of every channel
+	for ch := 0; ch < 4; ch++ {
+		if len(pl.bases[ch]) == 0 {
+			continue
+		}
+		b := pl.bases[ch][0]
+		var ts []triple
+		for pi := 1; pi < len(b.positions); pi++ {
+			ts = append(ts, triple{0, pi, 0, 2})
+		}
+		pl.streams = append(pl.streams, nodeStream("delete-"+names[ch], pl, ch, ts))
+	}
+	// (i-d) an alias (to a scalar / to a collection) at every position of the synthetic every-key documents
+	for ch := 0; ch < 4; ch++ {
+		if len(pl.bases[ch]) == 0 {
+			continue
+		}
+		b := pl.bases[ch][0]
+		var ts []triple
+		for si, sb := range pl.subs {
+			if sb.name != "alias-scalar" && sb.name != "alias-collection" {
+				continue
+			}
+			for pi := 1; pi < len(b.positions); pi++ {
+				ts = append(ts, triple{0, pi, si, 0})
+			}
+		}
+		pl.streams = append(pl.streams, nodeStream("alias-"+names[ch], pl, ch, ts))
 	}
 	// (ii) expression text
 	maxLen := 3
